@@ -230,7 +230,21 @@ def rule_r34(chk, prog, paths):
                   f'been looked up under its identity ({by_id}) and under '
                   f'structural equality ({by_eq})', loc=m.loc(loop),
                   nontrivial=True)
-        none_path = (f'{popv} is None', True) in p.facts
+        # the variable(s) holding the value taken out of the map on this path
+        rvars = {popv}
+        for n_ in p.nodes[:-1]:
+            a_ = n_.ast
+            if n_.kind == 'stmt' and isinstance(a_, ast.Assign) and \
+                    isinstance(a_.targets[0], ast.Name):
+                for x_ in ast.walk(a_.value):
+                    if (isinstance(x_, ast.Subscript) and unparse(
+                            x_.value) == repl) or (
+                                isinstance(x_, ast.Call) and isinstance(
+                                    x_.func, ast.Attribute) and unparse(
+                                        x_.func.value) == repl
+                                and x_.func.attr in ('pop', 'get')):
+                        rvars.add(a_.targets[0].id)
+        none_path = any((f'{v_} is None', True) in p.facts for v_ in rvars)
         if none_path:
             chk.check('C11.R4', where, f'{desc}: deletion',
                       not emits and not pushes,
@@ -329,45 +343,100 @@ def rule_r5(chk, prog):
     loop = loops[0]
     head = cfg.node_of[id(loop)]
     paths = loop_body_paths(cfg, loop)
+    from ..astutil import module_const, expand_locals
+    from ..boolfn import eval_bool_expr
     idents = set()
     for c in ast.walk(loop):
         if isinstance(c, ast.Compare) and isinstance(
-                c.ops[0], (ast.In, ast.NotIn)) and isinstance(
-                    c.comparators[0], (ast.List, ast.Tuple, ast.Set)):
-            for e in c.comparators[0].elts:
-                if isinstance(e, ast.Constant):
-                    idents.add(e.value)
+                c.ops[0], (ast.In, ast.NotIn)):
+            try:
+                v_ = module_const(m, c.comparators[0])
+            except ValueError:
+                v_ = None
+            if isinstance(v_, (tuple, list, set, frozenset)):
+                idents.update(x for x in v_ if isinstance(x, str))
     chk.check('C11.R5', where, f'prefix commands {sorted(idents)}',
               idents == {'set-info', 'set-logic'},
               f'the prefix is defined by {sorted(idents)}; documented: '
               'set-info and set-logic', loc=m.loc(loop), nontrivial=True)
-    for p in paths:
-        desc = describe_path(p)
-        in_prefix = any(' in [' in t and pol for (t, pol) in p.facts) or any(
-            ' in (' in t and pol for (t, pol) in p.facts)
-        has_ident = any(t.endswith('.has_ident()') and pol
-                        for (t, pol) in p.facts)
-        header = in_prefix and has_ident
-        if p.end is head:
-            # continues scanning: must be a header element and advance by 1
-            incs = [n.ast for n in p.nodes[:-1] if n.kind == 'stmt'
-                    and isinstance(n.ast, ast.AugAssign)
-                    and is_const(n.ast.value, 1)]
-            adv = len(incs) == 1 or isinstance(loop, ast.For)
-            chk.check('C11.R5', where, f'{desc}: scan continues', header
-                      and adv, 'the scan continues past an element that is '
-                      'not a set-info/set-logic command (or does not advance '
-                      'by one): declarations would be inserted after a later '
-                      'header-like command instead of after the leading '
-                      'prefix', loc=m.loc(loop), nontrivial=True)
-        else:
-            chk.check('C11.R5', where, f'{desc}: scan stops', not header,
-                      'the scan stops at a set-info/set-logic command',
-                      loc=m.loc(loop), nontrivial=True)
+
+    class _Other(Exception):
+        pass
+
+    def atom(e):
+        # H: <x>.has_ident()   P: <x>.get_ident() in <prefix set>
+        if isinstance(e, ast.Call) and isinstance(
+                e.func, ast.Attribute) and e.func.attr == 'has_ident':
+            return ('H', True)
+        if isinstance(e, ast.Compare) and len(e.ops) == 1 and isinstance(
+                e.ops[0], (ast.In, ast.NotIn)) and isinstance(
+                    e.left, ast.Call) and isinstance(
+                        e.left.func, ast.Attribute) and \
+                e.left.func.attr == 'get_ident':
+            return ('P', isinstance(e.ops[0], ast.In))
+        raise _Other()
+
+    def taken(p, val):
+        """Is the path consistent with the valuation of (H, P)?  Facts about
+        anything else (cursor < length, ...) do not restrict it."""
+        from ..shape import parse_expr
+        for (t, pol) in p.facts:
+            e = parse_expr(t)
+            if e is None:
+                continue
+            try:
+                if bool(eval_bool_expr(e, atom, val)) != pol:
+                    return False
+            except _Other:
+                continue
+        return True
+
+    # the cursor: a name incremented by one in the loop (While: also the
+    # index of the scan; For: a counter)
+    incs_all = [n for n in ast.walk(loop) if isinstance(n, ast.AugAssign)
+                and isinstance(n.op, ast.Add) and is_const(n.value, 1)
+                and isinstance(n.target, ast.Name)]
+    cursor = incs_all[0].target.id if len(incs_all) == 1 else None
+    if isinstance(loop, ast.For) and isinstance(
+            loop.iter, ast.Call) and call_name(loop.iter) == 'enumerate':
+        cursor = None  # judged through the returned slice below
+    nval = 0
+    for val, header in (({'H': True, 'P': True}, True),
+                        ({'H': True, 'P': False}, False),
+                        ({'H': False, 'P': False}, False),
+                        ({'H': False, 'P': True}, False)):
+        for p in paths:
+            if not taken(p, val):
+                continue
+            nval += 1
+            desc = describe_path(p)
+            cont = p.end is head
+            if header:
+                incs = [n.ast for n in p.nodes[:-1] if n.kind == 'stmt'
+                        and isinstance(n.ast, ast.AugAssign)
+                        and cursor is not None
+                        and unparse(n.ast.target) == cursor]
+                adv = cursor is None or len(incs) == 1
+                chk.check('C11.R5', where, f'{desc}: header element: scan '
+                          'continues and advances', cont and adv,
+                          'at a leading set-info/set-logic command the scan '
+                          'stops (or does not advance by one): declarations '
+                          'are not inserted after the whole prefix',
+                          loc=m.loc(loop), nontrivial=True)
+            else:
+                chk.check('C11.R5', where, f'{desc}: other element '
+                          f'(has_ident={val["H"]}): scan stops', not cont,
+                          'the scan continues past an element that is '
+                          'not a set-info/set-logic command: declarations '
+                          'would be inserted after a later header-like '
+                          'command instead of after the leading prefix',
+                          loc=m.loc(loop), nontrivial=True)
+    chk.floor('C11.R5', 'iteration paths x valuations of the prefix scan',
+              nval, 3)
     rets = [s for s in walk_no_nested(f) if isinstance(s, ast.Return)]
     ok = len(rets) == 1
     if ok:
-        v = rets[0].value
+        v = expand_locals(f, rets[0].value)
         # exprs[:pos] + vars + exprs[pos:]
         txt = unparse(v).replace(' ', '')
         cur = None
@@ -376,9 +445,16 @@ def rule_r5(chk, prog):
                 cur = unparse(nme.upper)
         ok = cur is not None and txt == (f'{ps[0]}[:{cur}]+{ps[1]}+'
                                          f'{ps[0]}[{cur}:]')
+        if ok and cursor is not None:
+            init = [st for st in walk_no_nested(f)
+                    if isinstance(st, ast.Assign)
+                    and unparse(st.targets[0]) == cursor]
+            ok = cur == cursor and len(init) == 1 and is_const(
+                init[0].value, 0)
     chk.check('C11.R5', where, 'result = prefix + declarations + rest', ok,
-              'the result is not exprs[:pos] + vars + exprs[pos:]',
-              loc=m.loc(f), nontrivial=True)
+              'the result is not exprs[:k] + vars + exprs[k:] with k the '
+              'number of leading header commands', loc=m.loc(f),
+              nontrivial=True)
     # apply_simp
     um = prog.mod('mutator_utils')
     a = um.func('apply_simp')
